@@ -64,8 +64,14 @@ package diff
 
 //@ func MatchFunctionsByTopology
 //@   noframe
-//@   protocol-only C10
+//@   protocol-only C10 C19
 //@   deterministic
+// C19: every unmatched old function is compared with every unmatched new function of its structural bucket (the
+// three loops are never left early), only pairs reaching the threshold become candidates, and only candidates
+// become rename matches.
+//@   loop 8 complete [C19.cands]
+//@   loop 9 complete [C19.cands]
+//@   loop 10 complete [C19.cands]
 
 //@ func sortedResultNames
 //@   noframe
